@@ -143,7 +143,10 @@ def anchor_codes():
           register_forward_ref, resolve_forward_type, ParserField.resolve_forward_refs,
           TypeRegistry.register, TypeRegistry.resolve, BaseParser.resolve_parser.__func__,
           getattr(BaseParser, "_resolve_forward_refs", None), getattr(BaseParser, "resolve_forward_types", None),
-          getattr(FunctionParser, "resolve_forward_types", None)]
+          getattr(FunctionParser, "resolve_forward_types", None), getattr(FunctionParser, "assign_generator_types", None),
+          # the wrappers that trigger the lazy resolution at a call (their inner closures are picked up below)
+          FunctionParser.get_sync_generator, FunctionParser.get_async_generator, FunctionParser.get_async_call,
+          FunctionParser.sync_call]
     return _codes_of(fs)
 
 
